@@ -1,11 +1,13 @@
-(* C08 -- Restart at any event boundary is invisible.   PARTIAL.
-   Proved: what Bootstrap over the persisted databases is in the model (forget the forkless-cause cache,
-   the build counter and the election's votes; re-vote all stored roots), that it keeps every persisted
-   field when it emits no block, and that whatever it emits obeys the frame numbering.
-   NOT proved: [C08_full] below -- the re-voted election is observationally equal to the incrementally
-   built one.  That is lemma L1 of C01/C10 (votes are a function of the processed set; worker bft).
-   The full statement is evaluated on every generated case by the correspondence (restarted vs
-   never-restarted real instance vs model) and below on two concrete runs. *)
+(* C08 -- Restart at any event boundary is invisible.
+   Theorems of record (proofs by worker link, composed over this model): C08_restart_invisible_on_valid_runs,
+   C08_restart_invisible_at_any_boundary (restarts anywhere among the noise of a valid single-epoch run:
+   after rejected events, between a Build and its Process, after speculative Builds and probes; any cache
+   capacity), C08_restart_after_seal_invisible (restart of the instance a seal / genesis / Reset leaves, then
+   the multi-epoch run equals the reference).
+   The four *_partial theorems below are the structural facts about Bootstrap they build on.
+   Still NOT proved: [C08_full] in its literal generality (arbitrary operation lists: events that are not
+   part of a valid run, forkers >= 1/3, Reset operations, restarts in the MIDDLE of a later epoch of a
+   multi-epoch run with noise); these are covered by the correspondence only. *)
 From Coq Require Import NArith List.
 From LV Require Import model.VecIndex model.Abft model.AbftRun
   proofs.AbftSeal proofs.AbftProcess proofs.AbftRestart proofs.AbftSealWitness proofs.AbftForkWitness.
